@@ -275,7 +275,12 @@ class Inliner:
             # a file-local helper that encapsulates a rejection (`warn or throw`): the throw and its guards belong to the caller
             throws = n.get("k") == "CallExpr" and str(g.get("ret") or "").strip() == "void" and \
                 any(x.get("k") == "CXXThrowExpr" for x in walk(g["body"]))
-            if only_fp and not trivial_fwd and not throws and not any("(*)" in str(p.get("t") or "") or "(lambda at" in str(p.get("t") or "") for p in params):
+            # a file-local straight-line filler of out-parameters (e.g. the shared part of two parameter-struct set-ups)
+            filler = n.get("k") == "CallExpr" and str(g.get("ret") or "").strip() == "void" and params and \
+                all(p.get("ref") for p in params) and \
+                not any(x.get("k") in ("IfStmt", "ForStmt", "WhileStmt", "DoStmt", "SwitchStmt", "ReturnStmt", "CXXTryStmt",
+                                       "CXXForRangeStmt") for x in walk(g["body"]))
+            if only_fp and not trivial_fwd and not throws and not filler and not any("(*)" in str(p.get("t") or "") or "(lambda at" in str(p.get("t") or "") for p in params):
                 continue
             if len(args) != len(params) or any(a.get("k") == "CXXDefaultArgExpr" for a in args):
                 continue
